@@ -42,10 +42,13 @@ class Sim:
             rnd = random.Random(kernel.H("split", wd["split_seed"], k))
             nsplit = rnd.choice([1, 2, 2, 3, 4]) if self.des.get("dense_splits") else rnd.choice([0, 0, 1, 2])
             cuts = sorted(set(rnd.randrange(1, len(rec)) for _ in range(nsplit))) if len(rec) > 1 else []
-            if self.des.get("dense_splits") and k < len(img.fields) and rnd.random() < 0.6:
+            if self.des.get("dense_splits") and k < len(img.fields) and (rnd.random() < 0.6 or self.des.get("field_end_tears")):
                 # tear just behind the start of a field (1-3 bytes into it): short reads that leave less than one
                 # integer behind are the ones a lenient reader mistakes for a clean end of file
                 starts = [off + d for off, ln, tag in img.fields[k] for d in (1, 2, 3) if 0 < off + d < len(rec)]
+                # ... and just before the end of a field (1-3 bytes missing): a reader that skips this field unchecked and
+                # then gets a complete read is off by less than one integer and can run into a "clean" end of file
+                starts += [off + ln - d for off, ln, tag in img.fields[k] for d in (1, 2, 3) if 0 < off + ln - d < len(rec)]
                 if starts:
                     cuts = sorted(set(cuts + [rnd.choice(starts) for _ in range(2)]))
             parts = []
